@@ -214,7 +214,7 @@ var keyNames = []string{"k", "k1", "k2", "name", "id"}
 func genOperand(r *Rng, depth int) map[string]any {
 	switch r.Intn(6) {
 	case 0:
-		return map[string]any{"t": "lit", "s": pick(r, []string{"v", "", "a b", "1", "é", "x/y"}), "q": r.Intn(2)}
+		return map[string]any{"t": "lit", "s": pick(r, []string{"v", "", "a b", "1", "é", "x/y", "07", "1.0", "1.50", " 5 ", "-0", "0100", "+3", ".5", "1e2", "NaN", "Infinity"}), "q": r.Intn(2)}
 	case 1:
 		return map[string]any{"t": "num", "txt": pick(r, []string{"1", "2.5", "10", "0", "1000000"})}
 	case 2:
@@ -222,8 +222,8 @@ func genOperand(r *Rng, depth int) map[string]any {
 		switch f {
 		case "concat", "substring-before":
 			return map[string]any{"t": "call", "f": f, "args": []any{
-				map[string]any{"t": "lit", "s": pick(r, []string{"ab", "x-y", ""}), "q": 0},
-				map[string]any{"t": "lit", "s": pick(r, []string{"-", "b", "z"}), "q": 1}}}
+				map[string]any{"t": "lit", "s": pick(r, []string{"ab", "x-y", "", "0", "1.0/24"}), "q": 0},
+				map[string]any{"t": "lit", "s": pick(r, []string{"-", "b", "z", "7", "/"}), "q": 1}}}
 		default:
 			return map[string]any{"t": "call", "f": f, "args": []any{map[string]any{"t": "num", "txt": pick(r, []string{"1", "2.50", "007"})}}}
 		}
